@@ -86,12 +86,18 @@ fn to_hash(n: &lv_core::oracle::NmtNode) -> NamespacedHash {
 }
 
 fn befp_square(keys: &chain::Keys, seed: u64, w: usize, layout: usize, corrupt: Option<(bsq::Ax, usize)>, height_slot: usize) -> BefpSquare {
+    befp_square_at(keys, seed, w, layout, corrupt, 0, height_slot)
+}
+
+/// `pos`: which cell of the corrupted axis is trashed (a cell of the parity half makes the
+/// reconstruction from the parity half produce garbage original shares).
+fn befp_square_at(keys: &chain::Keys, seed: u64, w: usize, layout: usize, corrupt: Option<(bsq::Ax, usize)>, pos: usize, height_slot: usize) -> BefpSquare {
     let k = w / 2;
     let ods = bsq::build_ods(k, layout, seed);
     let mut cells = bsq::extend(&ods, k);
     if let Some((ax, idx)) = corrupt {
         let mut fill = lv_core::Fill::new(seed, 0xC16B ^ ((w as u64) << 16) ^ (idx as u64));
-        let (r, c) = bsq::Sq::coord(ax, idx, 0);
+        let (r, c) = bsq::Sq::coord(ax, idx, pos);
         bsq::trash_payload(&mut cells[r * w + c], &mut fill);
     }
     let sq = bsq::Sq::from_cells(cells, w);
@@ -105,7 +111,7 @@ fn befp_square(keys: &chain::Keys, seed: u64, w: usize, layout: usize, corrupt: 
         "w{w}-layout{layout}-{}",
         match corrupt {
             None => "honest".to_string(),
-            Some((ax, i)) => format!("corrupt-{}{}", if ax == bsq::Ax::Row { "row" } else { "col" }, i),
+            Some((ax, i)) => format!("corrupt-{}{}-cell{pos}", if ax == bsq::Ax::Row { "row" } else { "col" }, i),
         }
     );
     BefpSquare { name, sq, header, corrupt }
@@ -139,6 +145,8 @@ impl Env {
             befp_square(&keys, seed, 4, 1, Some((bsq::Ax::Row, 0)), 0),
             befp_square(&keys, seed, 4, 1, Some((bsq::Ax::Col, 3)), 1),
             befp_square(&keys, seed, 4, 0, None, 2),
+            befp_square_at(&keys, seed, 4, 1, Some((bsq::Ax::Row, 0)), 3, 5),
+            befp_square_at(&keys, seed, 4, 1, Some((bsq::Ax::Col, 1)), 2, 6),
         ];
         if thorough {
             befp.push(befp_square(&keys, seed, 8, 1, Some((bsq::Ax::Row, 5)), 3));
